@@ -167,6 +167,19 @@ func c09Shapes(c *Ctx) {
 			comps = append(comps, compositions(n, k)...)
 		}
 	}
+	if c.Quick() {
+		// plus the populations of 12 in four species of at least two members, with ten babies to steal:
+		// the only shapes in which the stolen pool outlasts the three best species
+		for _, cp := range compositions(12, 4) {
+			ok := true
+			for _, v := range cp {
+				ok = ok && v >= 2
+			}
+			if ok {
+				comps = append(comps, cp)
+			}
+		}
+	}
 	c.Extra["shape_compositions"] = len(comps)
 	var shapes, execs, dist int64
 	c.Sharded(len(comps), func(ci int) {
@@ -189,7 +202,11 @@ func c09Shapes(c *Ctx) {
 				v /= len(c09AgeMenu)
 			}
 			for fit := 0; fit <= numLandscapes+1; fit++ {
-				for _, st := range stolen {
+				stolenHere := stolen
+				if c.Quick() && k == 4 && sizes[0]+sizes[1]+sizes[2]+sizes[3] == 12 {
+					stolenHere = []int{10}
+				}
+				for _, st := range stolenHere {
 					for _, drop := range []int{1, 15} {
 						for surv := range c09Surv {
 							for stag := 0; stag < 2; stag++ {
